@@ -140,7 +140,20 @@ class World:
             def read_value(self):
                 return 3.0
 
-        self.node = nodes.Node({'d': {'cls': Drv, 'description': 'drv'}, 'r': {'cls': Rd, 'description': 'rd'}}).build()
+        from frappy.errors import HardwareError, CommunicationFailedError
+
+        class Er(Readable):
+            """a driver whose errors carry other things than texts: an error code, a wrapped exception"""
+            w = Parameter('w', FloatRange(), default=0)
+
+            def read_value(self):
+                raise HardwareError(17)
+
+            def read_w(self):
+                raise CommunicationFailedError(ValueError('inner'))
+
+        self.node = nodes.Node({'d': {'cls': Drv, 'description': 'drv'}, 'r': {'cls': Rd, 'description': 'rd'},
+                                'e': {'cls': Er, 'description': 'failing reads'}}).build()
         self.log = self.node.log
         self.snap = {(mn, pn): (p.value, p.readerror, p.timestamp) for mn, m in self.node.secnode.modules.items()
                      for pn, p in m.parameters.items()}
@@ -276,7 +289,10 @@ class World:
              b'read r:value', b'read d:_ro', b'change d:_x 3', b'change d:_x 7', b'change d:target 2.5', b'change d 1', b'change d:_s "abc"',
              b'change d:_s "\\u00e4 \\"q\\""', b'change d:_st {"a": 2}', b'change d:_st {"a": 1, "b": true}', b'do d:_twice 2', b'do d:stop',
              b'activate', b'activate d', b'activate d:_x', b'deactivate', b'deactivate d', b'deactivate d:_x', b'help', b'',
-             b'logging d "info"', b'logging . "off"', b'logging  "debug"', b'read d:pollinterval', b'change d:pollinterval 2']
+             b'logging d "info"', b'logging . "off"', b'logging  "debug"', b'read d:pollinterval', b'change d:pollinterval 2',
+             # reads that fail in the driver with an error carrying a number / a wrapped exception (repeated: the second failure
+             # takes the 'same error again' path)
+             b'read e:value', b'read e:value', b'read e', b'read e:_w', b'read e:_w']
     HOSTILE = [b'change d:_x "3"', b'change d:_x 3.5', b'change d:_x 11', b'change d:_x', b'change d:_x {bad', b'change d:_x [1', b'change d:_ro 1',
                b'read d:nosuch', b'read nosuch', b'read', b'read d:value extra', b'read d:value 1', b'change nosuch:x 1', b'do d:_twice "2"',
                b'do d:_twice 7', b'do d:_twice', b'do d:nosuch', b'do d', b'do', b'change', b'change d:_x NaN', b'change d:target Infinity',
